@@ -791,7 +791,21 @@ class CSemantics:
             if op[0] in ["+", "-"] and lhs.typ.is_pointer:
                 self.ensure_integer(rhs)
                 lhs = self.ensure_no_void_ptr(lhs)
-            rhs = self.coerce(rhs, result_typ)
+
+            if op != "=" and lhs.typ.is_scalar and rhs.typ.is_scalar:
+                # 'a op= b' is 'a = a op b': the operation is performed in
+                # the type the plain operator would use. The right hand side
+                # is given that type, the code generator converts the left
+                # value to it and the result back.
+                if op in ["<<=", ">>="]:
+                    op_typ = self.promote(lhs).typ
+                else:
+                    op_typ = self.get_common_type(
+                        self.promote(lhs).typ, self.promote(rhs).typ, location
+                    )
+                rhs = self.coerce(rhs, op_typ)
+            else:
+                rhs = self.coerce(rhs, result_typ)
         elif op == ",":
             result_typ = rhs.typ
         elif op == "+":
